@@ -10,7 +10,7 @@
      libs     libraries imported by a program                importLib 导入《@JSON》
      respdef  the headers a library type's constructor gives  mutResp   create a response without headers, 写入 into its 头部
               to every new instance
-     modpath  how the name of a module file is resolved       fileImport  run a FILE that imports a custom module 工具-计算
+     modpath  how the name of a module file is resolved       fileImport  run a FILE that imports a custom module 工具-计算;  fileImportOther  the same from another directory whose 工具/计算.zn differs
      numvar   the predefined value 数值 as INPUT-VARIABLE TEXTS  varInputInc  a request whose input-variable text is 甲 = 以数值（自增：5）
               see it (the texts are evaluated by a VM of their own)
      natnames names declared INSIDE the body of a redefined    ctorDeclare  如何新建异常？ with a nested 如何内助？ / 定义内类, then 新建异常
@@ -30,7 +30,7 @@ EXTENDS Integers, Sequences, FiniteSets, TLC, Json
 
 CONSTANTS Design, Mode, MaxN, Conc
 
-Polluters == {"incNum", "redefExc", "redefLib", "mutLib", "failDeep", "declare", "importLib", "mutResp", "fileImport", "varInputInc", "ctorDeclare", "redefLibAlias"}
+Polluters == {"incNum", "redefExc", "redefLib", "mutLib", "failDeep", "declare", "importLib", "mutResp", "fileImport", "varInputInc", "ctorDeclare", "redefLibAlias", "fileImportOther"}
 Pristine == [num |-> 0, excctor |-> "builtin", libctor |-> "builtin", libdef |-> "clean", frames |-> 0, names |-> {}, libs |-> {},
              respdef |-> "clean", modpath |-> "fresh", numvar |-> 0, natnames |-> {}, report |-> "own"]
 
@@ -94,6 +94,7 @@ Effect(p, c) == CASE p = "incNum" -> [c EXCEPT !.num = @ + 5]
                   [] p = "importLib" -> [c EXCEPT !.libs = @ \cup {"json"}, !.report = "foreign"]
                   [] p = "mutResp" -> [c EXCEPT !.respdef = "dirty"]
                   [] p = "fileImport" -> [c EXCEPT !.modpath = "used", !.report = "foreign"]
+                  [] p = "fileImportOther" -> [c EXCEPT !.modpath = "other", !.report = "foreign"]    \* a FILE in ANOTHER directory that imports a module of the same NAME with other content
                   [] p = "varInputInc" -> [c EXCEPT !.numvar = @ + 5]
                   [] p = "ctorDeclare" -> [c EXCEPT !.natnames = @ \cup {"helper", "type"}, !.report = "foreign"]
 Seqs == UNION {[1..n -> Polluters] : n \in 0..MaxN}
